@@ -594,7 +594,9 @@ func runMessage(m *message, s *marbl.Stream, mod *marbl.Modifier) (out []string)
 				panicked = true
 			}
 		}()
-		for k := 0; k < 1<<20; k++ {
+		// a consumer gives up eventually (a wrapper that hid the error would
+		// otherwise be read forever)
+		for k := 0; k < 6000; k++ {
 			if m.stop > 0 && k >= m.stop {
 				break
 			}
@@ -1012,6 +1014,18 @@ func main() {
 			in = append(in, randMessage(r, "unused00", 800, 900)...)
 		}
 		emit("mod", in)
+	}
+
+	// ---- 5b. message IDs that differ only after the 8th byte (marbl.Modifier
+	// logs under 16-character context IDs; newFrame keeps id[:8])
+	for k := 0; k < 2*scale; k++ {
+		r := rng.Fork()
+		pre := randID(r)
+		in := []string{"MS", "T=2"}
+		for j := 0; j < 2; j++ {
+			in = append(in, "M", "k=Q", "id="+hexTok(pre+fmt.Sprintf("%08d", j+1)), fmt.Sprintf("bd=%d:%d", r.Range(1, 50), r.Intn(1<<30)))
+		}
+		emit("idtrunc", in)
 	}
 
 	// ---- 6. reader robustness
